@@ -344,8 +344,10 @@ impl<K: SimK, V: SimV, const N: usize, const M: usize> World<K, V, N, M> {
         }
         let cx = &mut self.cx;
         let mut new_leaks: Vec<u64> = Vec::new();
+        let mut reappeared_out = false;
         env::with(|e| {
             let mut bad: Vec<(&'static str, String)> = Vec::new();
+            let mut reappeared = false;
             for (idx, o) in e.objs.iter().enumerate() {
                 let id = idx as u64 + 1;
                 let n = loc.get(&(id, o.kind)).copied().unwrap_or(0);
@@ -362,7 +364,11 @@ impl<K: SimK, V: SimV, const N: usize, const M: usize> World<K, V, N, M> {
                     } else if n > 1 {
                         bad.push(("two-places", format!("{} #{} is in {n} places at once", env::kname(o.kind), id)));
                     } else if cx.forgotten.contains(&id) {
-                        bad.push(("two-places", format!("{} #{} was inside a forgotten holder but is visible again", env::kname(o.kind), id)));
+                        // it was still inside a holder that was forgotten, and is visible in exactly one place:
+                        // the implementation left it stored in the container the drain came from (as std's own
+                        // drains may). That is one place - an ordinary stored element again, to be destroyed once.
+                        cx.forgotten.retain(|x| *x != id);
+                        reappeared = true;
                     }
                 } else if cx.forgotten.contains(&id) {
                     bad.push(("double-destruction", format!("{} #{} was inside a forgotten holder but has been destroyed", env::kname(o.kind), id)));
@@ -379,6 +385,10 @@ impl<K: SimK, V: SimV, const N: usize, const M: usize> World<K, V, N, M> {
                         bad.push(("no-place", format!("{} anonymous {}(s) alive but in no place", live - located, env::kname(k as u8))));
                         cx.anon_leaked_ok[k] += live - located;
                     }
+                } else if live < located && cx.anon_forgotten[k] >= located - live {
+                    // (anonymous objects of a forgotten drain that were left stored in its container: see above)
+                    cx.anon_forgotten[k] -= located - live;
+                    reappeared = true;
                 } else if live < located {
                     bad.push(("two-places", format!("{} anonymous {}(s) stored or held but only {} alive", located, env::kname(k as u8), live)));
                     cx.anon_leaked_ok[k] -= (located - live).min(cx.anon_leaked_ok[k]);
@@ -387,7 +397,11 @@ impl<K: SimK, V: SimV, const N: usize, const M: usize> World<K, V, N, M> {
             for (r, d) in bad.into_iter().take(4) {
                 e.violate(r, d);
             }
+            reappeared_out = reappeared;
         });
+        if reappeared_out {
+            cx.probe("forgotten_drain_left_elements_stored");
+        }
         if !new_leaks.is_empty() {
             cx.probe("leak_tolerated_after_fault");
         }
